@@ -258,6 +258,25 @@ def check_bank(seq):
             bad('GapDegree.gaps_per_tree', exp['per_tree'], task.gaps_per_tree)
         if task.gaps_per_node != exp['per_node']:
             bad('GapDegree.gaps_per_node', exp['per_node'], task.gaps_per_node)
+        # the same task object used on: report, further trees, report again.  Whether the second report covers the
+        # second batch or both is not specified; its tree tallies and its node tallies must describe the SAME trees.
+        import contextlib
+        buf = io.StringIO()
+        with contextlib.redirect_stdout(buf), contextlib.redirect_stderr(io.StringIO()):
+            task.done()
+        first = parse_gap_report(buf.getvalue())
+        if first is not None and first != {k: exp[k] for k in ('trees', 'nodes', 'per_tree', 'per_node')}:
+            bad('GapDegree.done()', {k: exp[k] for k in ('trees', 'nodes', 'per_tree', 'per_node')}, first)
+        batch2 = mts[:1] + mts[-1:]
+        for mt in batch2:
+            task.run(build(mt))
+        buf = io.StringIO()
+        with contextlib.redirect_stdout(buf), contextlib.redirect_stderr(io.StringIO()):
+            task.done()
+        second = parse_gap_report(buf.getvalue())
+        ok = [{k: expected_reports(b)[k] for k in ('trees', 'nodes', 'per_tree', 'per_node')} for b in (batch2, mts + batch2)]
+        if second is not None and second not in ok:
+            bad('GapDegree report after run, done, run, done on one task object', ok, second)
         # CLI
         st, so, se, exc = cli.run(['treeanalysis', path, 'GapDegree'] + fmtargs)
         rep = parse_gap_report(so)
@@ -325,3 +344,28 @@ def run_chunk(chunk):
                 res.violation(v['kind'], v['where'], v['case'], v['detail'], v['what'])
         res.sample({'tree': model.mt_str(mt.root), 'gap_degree': d})
     return res
+
+
+# --- non-initial states: the oracle of this property in every state of the live-state pool
+# (vt/livepool.py: BFS over live objects; vt/liveoracles.py: the oracles)
+from .. import liveoracles as _lo
+_plan0, _run_chunk0, _check_case0 = plan, run_chunk, check_case
+
+
+def plan(tier, seed):
+    p = _plan0(tier, seed)
+    p['chunks'] = list(p['chunks']) + _lo.plan_chunks(tier)
+    p['assumptions'] = list(p.get('assumptions', [])) + [_lo.assumption()]
+    return p
+
+
+def run_chunk(chunk):
+    if chunk.get('kind') == 'live':
+        return _lo.run_chunk(ID, chunk, Result())
+    return _run_chunk0(chunk)
+
+
+def check_case(case):
+    if isinstance(case, dict) and isinstance(case.get('live'), dict):
+        return _lo.replay(case)
+    return _check_case0(case)
